@@ -772,12 +772,11 @@ func newControlPlaneWithContextOptions(
 	}
 	plane.dnsRouting = dnsUpstream
 	plane.dnsFixedDomainTtl = fixedDomainTtl
-	dnsControllerOption := plane.dnsControllerOption()
-	dnsControllerOption.OptimisticCache = dnsConfig.OptimisticCache
-	dnsControllerOption.OptimisticCacheTtl = dnsConfig.OptimisticCacheTtl
-	dnsControllerOption.MaxCacheSize = dnsConfig.MaxCacheSize
-	dnsControllerOption.IpVersionPrefer = dnsConfig.IpVersionPrefer
-	plane.dnsController, err = NewDnsController(dnsUpstream, dnsControllerOption)
+	plane.dnsOptimisticCache = dnsConfig.OptimisticCache
+	plane.dnsOptimisticCacheTtl = dnsConfig.OptimisticCacheTtl
+	plane.dnsMaxCacheSize = dnsConfig.MaxCacheSize
+	plane.dnsIpVersionPrefer = dnsConfig.IpVersionPrefer
+	plane.dnsController, err = NewDnsController(dnsUpstream, plane.dnsControllerOption())
 	if err != nil {
 		return nil, err
 	}
@@ -1295,6 +1294,12 @@ func (c *ControlPlane) dnsControllerOption() *DnsControllerOption {
 			}, err)
 		},
 		FixedDomainTtl: c.dnsFixedDomainTtl,
+		// Also on controller reuse (ReuseDNSControllerFrom): the reused controller must keep
+		// running with the configured behaviour, not fall back to the zero-value defaults.
+		IpVersionPrefer:    c.dnsIpVersionPrefer,
+		OptimisticCache:    c.dnsOptimisticCache,
+		OptimisticCacheTtl: c.dnsOptimisticCacheTtl,
+		MaxCacheSize:       c.dnsMaxCacheSize,
 	}
 }
 
